@@ -133,6 +133,12 @@ where
                 .context("Failed to write to temp file")?;
         }
     }
+    // tokio file writes complete in the background: wait for the last one before the
+    // temp file is read back through another handle.
+    temp_file
+        .flush()
+        .await
+        .context("Failed to flush temp file")?;
     Ok((
         source_hasher.finalize().to_vec(),
         archive_chunks,
